@@ -105,6 +105,60 @@ def gen_value(r, depth=0):
     return d
 
 
+# ---------------------------------------------------------------------------- advertised text vs kernel text of one address
+ZONES = {"7": "eth0", "9": "wlan0"}        # scripted if_indextoname: zone index -> interface name
+
+
+def kernel_spelling(text: str) -> str:
+    """The peer address as getpeername() reports it (inet_ntop form, lower case, compressed; interface NAME for a known zone
+    index) for a candidate address as it was advertised or stored."""
+    import socket
+    if ":" not in text:
+        return text
+    addr, _, zone = text.partition("%")
+    try:
+        addr = socket.inet_ntop(socket.AF_INET6, socket.inet_pton(socket.AF_INET6, addr))
+    except OSError:
+        return text
+    zone = ZONES.get(zone, zone)
+    return addr + ("%" + zone if zone else "")
+
+
+# other spellings of the catalogue's addresses, as a stored pairing file / a TXT record / a user may carry them
+RESPELL = {
+    "2001:db8::1": [("uncompressed", "2001:0db8:0000:0000:0000:0000:0000:0001"), ("upper-case", "2001:DB8::1"),
+                    ("partly-compressed", "2001:db8:0:0::1")],
+    "::1": [("uncompressed", "0:0:0:0:0:0:0:1")],
+    "fd00:1234:5678:9abc:def0:1234:5678:9abc": [("upper-case", "FD00:1234:5678:9ABC:DEF0:1234:5678:9ABC")],
+    "::ffff:10.0.0.1": [("v4-mapped-hex", "::ffff:a00:1"), ("v4-mapped-upper", "::FFFF:10.0.0.1"),
+                        ("v4-mapped-uncompressed", "0:0:0:0:0:ffff:10.0.0.1")],
+    "fe80::1%eth0": [("zone-index", "fe80::1%7"), ("upper-case", "FE80::1%eth0"), ("uncompressed", "fe80:0:0:0:0:0:0:1%eth0")],
+    "fe80::aabb:ccff:fedd:eeff%wlan0": [("zone-index", "fe80::aabb:ccff:fedd:eeff%9"), ("upper-case", "FE80::AABB:CCFF:FEDD:EEFF%wlan0")],
+    "fe80::1%3": [("uncompressed", "fe80:0000:0000:0000:0000:0000:0000:0001%3")],
+    "fe80::2%en0.100": [("upper-case", "FE80::2%en0.100")],
+}
+
+
+def respell_scenario(sc, choose):
+    """Replace the advertised host texts of a scenario by other spellings of the same addresses (`reach` stays the kernel text)."""
+    kinds = []
+
+    def one(h):
+        alts = RESPELL.get(h)
+        if not alts:
+            return h
+        kind, text = choose(alts)
+        assert kernel_spelling(text) == h, (text, h)
+        kinds.append(kind)
+        return text
+    sc = dict(sc, hosts=[one(h) for h in sc["hosts"]], phases=[dict(ph) for ph in sc["phases"]])
+    for ph in sc["phases"]:
+        if "new_hosts" in ph:
+            ph["new_hosts"] = [one(h) for h in ph["new_hosts"]]
+    sc["spelling"] = sorted(set(kinds)) or ["as-kernel"]
+    return sc
+
+
 # ---------------------------------------------------------------------------- implementation side
 class Seams:
     """Monkey-patched network seams (no source hooks): aiohappyeyeballs.start_connection and loop.create_connection.
@@ -133,10 +187,12 @@ class Seams:
             self._C.start_connection = self._orig_c
 
     async def start_connection(self, addr_infos, **kw):
+        # the candidate text is what was ADVERTISED / stored; the socket reports the peer as the KERNEL spells it
         for ai in addr_infos:
             self.attempts.append(ai[4][0])
-            if ai[4][0] in self.reachable:
-                return FakeSock(ai[4])
+            peer = kernel_spelling(ai[4][0])
+            if peer in self.reachable:
+                return FakeSock((peer,) + tuple(ai[4][1:]))
         raise ConnectionRefusedError(111, "scripted network: no reachable address")
 
     async def create_connection(self, factory, sock=None, **kw):
@@ -801,6 +857,23 @@ def gen_scenarios(tier, r):
         mode = "secure" if i % 3 else "plain"
         ops = secure_ops(r, r.choice([6, 12, 20])) if mode == "secure" else plain_ops(r, r.choice([6, 12, 20]))
         scs.append(single(mode, host, r.choice([80, 5001, 51826, 65535]), ops))
+    # the advertised text of an address need not be the kernel's: every alternative spelling of the catalogue once per
+    # mode (single connection and A -> drop -> B session), and a random respelling of half of all other scenarios
+    short = {"plain": [("get", "/accessories"), ("put_json", "/characteristics", {"a": [1]})],
+             "secure": [("list_accessories",), ("get_characteristics", [(1, 9), (2, 3)], list), ("subscribe", [(1, 9)])],
+             "discovery": [("identify_unpaired",)]}
+    directed = []
+    for kern, alts in RESPELL.items():
+        for alt in alts:
+            for mode in ("plain", "secure", "discovery"):
+                directed.append(respell_scenario(single(mode, kern, 5001, list(short[mode])), lambda a, alt=alt: alt if alt in a else a[0]))
+            other = "10.0.0.2"
+            directed.append(respell_scenario(dict(mode="secure", hosts=[other, kern], port=5001, phases=[
+                dict(via="initial", reach=other, ops=list(short["secure"])),
+                dict(via="drop", reach=kern, ops=[("get_characteristics", [(1, 9)], list)]),
+                dict(via="zeroconf-change", reach=kern, new_hosts=[kern], ops=[("put_characteristics", [(1, 9, 1)])])]),
+                lambda a, alt=alt: alt if alt in a else a[0]))
+    scs = [respell_scenario(sc, r.choice) if r.random() < 0.5 else sc for sc in scs] + directed
     return scs
 
 
@@ -1273,6 +1346,7 @@ def run(ctx):
                          sample=(dict(stream="req", mode=sc["mode"], host=peer, via=rec["via"], connection=cap.conn, api=api,
                                       request=cap.raw[:300].decode("latin1")) if n_req % 401 == 1 else None),
                          req_api=api, req_mode=sc["mode"], req_host=host_kind(peer), req_method=ex["method"],
+                         req_advertised_spelling=",".join(sc.get("spelling", ["as-kernel"])),
                          req_argument=("caller-held, updated in place" if rec.get("held") else "fresh"),
                          req_reached_via=rec["via"], req_connection_ordinal=min(cap.conn, 5),
                          req_body_kind=ex["kind"],
